@@ -80,6 +80,11 @@ impl BlobReader {
             .into();
 
         let record = Record { header, meta, data };
+        // Metadata is not covered by any checksum. If damaged metadata still deserializes, but into
+        // something of another size, the record can't be written back consistently with its header
+        if bincode::serialized_size(&record.meta)? != record.header.meta_size() {
+            return Err(ToolsError::record_validation_error("meta size mismatch").into());
+        }
         let record = record
             .validate()
             .map_err(|err| ToolsError::record_validation_error(err.to_string()))?;
